@@ -35,6 +35,16 @@ G_two == [r \in Two |-> IF r = 1 THEN <<Op("new"), Snd(3), Snd(2), Op("half"), O
                                 ELSE <<Op("new"), Snd(1), Op("half"), Op("recv"), Op("recv"), Op("recv")>>]
 GS_two == [r \in Two |-> IF r = 1 THEN <<Op("recv"), Op("recv"), Op("recv"), Snd(9), Ret(0)>>
                                  ELSE <<Op("recv"), Snd(2), Op("recv"), Snd(1), Ret(7)>>]
+\* a handler that fails with a status after a partial reply; a reply larger than the window read late;
+\* a caller that sends more than the handler reads before it returns (early return)
+G_err == [r \in One |-> <<Op("new"), Snd(3), Snd(1), Op("recv"), Op("recv"), Op("recv")>>]
+GS_err == [r \in One |-> <<Op("recv"), Snd(1), Ret(5)>>]
+G_down == [r \in One |-> <<Op("new"), Op("half"), Op("recv"), Op("recv"), Op("recv")>>]
+GS_down == [r \in One |-> <<Op("recv"), Snd(11), Snd(2), Ret(0)>>]
+G_early == [r \in Two |-> IF r = 1 THEN <<Op("new"), Snd(9), Snd(2), Op("half"), Op("recv")>>
+                                  ELSE <<Op("new"), Snd(2), Op("recv"), Op("half"), Op("recv")>>]
+GS_early == [r \in Two |-> IF r = 1 THEN <<Ret(3)>>
+                                   ELSE <<Op("recv"), Snd(1), Ret(0)>>]
 
 NoFaults == {}
 CancelOnly == {"cancel"}
